@@ -15,7 +15,7 @@ import (
 
 func init() {
 	Registry["C14"] = Set{
-		Explanation: "Decides structural clauses of remote failure detection: X1 the node-down chain — the goroutine serving a connection reaches unregisterConnection on every exit including its recover path, that function deletes the connection and reaches RouteNodeDown, which drains the relations with CleanupNode and sends one exit (links) / one down message with High priority (monitors) per consumer, every such message carrying ErrNoConnection; X2 incarnation guard vs ownership on raw frames — an identifier the reader rebuilds with its own creation must be guarded by the writer against the peer's creation, one the reader rebuilds with the peer's creation must not be (a wrongly guarded frame is never sent, an unguarded one lets identifiers of an earlier incarnation through); X3 the type switches that fan out node-down/termination cover every static target type ever passed to AddLink/AddMonitor; X4 every wait for a remote result or response is a select with a timer case (requests in flight end within their timeout). Added while probing: X1 the node-down send loops walk the whole consumer lists CleanupNode returned; X2b the request/link/monitor methods of a connection refuse identifiers of another incarnation before sending; X4 a pooled timer (lib.TakeTimer) is re-armed by Reset on every path to the select. X5 every channel type that is the target of a non-blocking send (MessageResult, response) is created buffered, so a reply that arrives before the requester blocks in its wait is kept. X6 every link of a connection is closed at termination: Terminate sets the terminated flag under the pool lock and closes the whole pool, Join tests the flag and appends inside one critical section of that lock, and the dialer closes a link Join refused. X7 no critical section of the connection's, the network's or the permission tables' locks calls anything that takes the same lock again (a self-deadlock there hangs every request on the connection). The re-dial of a pool link is bounded by progress (serve's result is used and the re-dial sits behind a constant bound), so a peer that dropped the connection but keeps running is eventually reported down. X8 lock pairing — in every function that touches the connection's pool/request locks and the remote spawn/start permission tables' locks a forward data flow over (held read/write, unlock deferred) shows: no return while the lock is held without a deferred unlock, no unlock (explicit or deferred) of a lock that is not held or of the other kind, no second lock (a leaked lock blocks every later send, request or termination of that connection for ever, an unlock of an unlocked mutex is a fatal error that takes the node down).",
+		Explanation: "Decides structural clauses of remote failure detection: X1 the node-down chain — the goroutine serving a connection reaches unregisterConnection on every exit including its recover path, that function deletes the connection and reaches RouteNodeDown, which drains the relations with CleanupNode and sends one exit (links) / one down message with High priority (monitors) per consumer, every such message carrying ErrNoConnection; X2 incarnation guard vs ownership on raw frames — an identifier the reader rebuilds with its own creation must be guarded by the writer against the peer's creation, one the reader rebuilds with the peer's creation must not be (a wrongly guarded frame is never sent, an unguarded one lets identifiers of an earlier incarnation through); X3 the type switches that fan out node-down/termination cover every static target type ever passed to AddLink/AddMonitor; X4 every wait for a remote result or response is a select with a timer case (requests in flight end within their timeout). Added while probing: X1 the node-down send loops walk the whole consumer lists CleanupNode returned; X2b the request/link/monitor methods of a connection refuse identifiers of another incarnation before sending; X4 a pooled timer (lib.TakeTimer) is re-armed by Reset on every path to the select. X5 every channel type that is the target of a non-blocking send (MessageResult, response) is created buffered, so a reply that arrives before the requester blocks in its wait is kept. X6 every link of a connection is closed at termination: Terminate sets the terminated flag under the pool lock and closes the whole pool, Join tests the flag and appends inside one critical section of that lock, and the dialer closes a link Join refused. X7 no critical section of the connection's, the network's or the permission tables' locks calls anything that takes the same lock again (a self-deadlock there hangs every request on the connection). The re-dial of a pool link is bounded by progress (serve's result is used and the re-dial sits behind a constant bound), so a peer that dropped the connection but keeps running is eventually reported down. X8 lock pairing — in every function that touches the connection's pool/request locks and the remote spawn/start permission tables' locks a forward data flow over (held read/write, unlock deferred) shows: no return while the lock is held without a deferred unlock, no unlock (explicit or deferred) of a lock that is not held or of the other kind, no second lock (a leaked lock blocks every later send, request or termination of that connection for ever, an unlock of an unlocked mutex is a fatal error that takes the node down). X9 the text of a name written into a termination notice is converted from the name after atom mapping. X10 the connection is removed from the node's table before the node-down notifications go out. X11 the dialing side's count of re-dialed links that were closed without traffic is reset to 0 only behind the 'received > 0' edge of the link's serve result (reset on a successful re-dial it never reaches the give-up limit: the dead connection stays and nobody is told).",
 		NotDecided: []string{
 			"timing (that the timeout elapses), TCP-level detection of a dead peer",
 			"restart of a peer under the same name within one second (creation is in seconds)",
@@ -80,6 +80,7 @@ func runC14(p *load.Program, r *core.Report) {
 	})
 	mappedNameText(p, r, "C14.X9 notice-names-the-mapped-name", "C14.X9", 5)
 	c14DownAfterUnregister(p, r)
+	c14GiveUpCounter(p, r)
 	c14PoolTermination(p, r)
 	c14ResultChannels(p, r)
 	c14Chain(p, r)
